@@ -279,6 +279,24 @@ def C14(F, rep, tier, cx):
     RF.K11(F, rep, cx.R, cx.FL)   # "does not depend on timing": no worker decision on a racy snapshot
 
 
+def C15(F, rep, tier, cx):
+    """structural clauses only (the behaviour over operation histories is arithmetic and NOT decided): B7 copies stay inside the container
+    that holds the position; R1 position / pointer / remaining count / get count advance by the bytes copied; R2 short read at the
+    declared end, end follows the put position; B3 buffer and size field change together (nextLogContainer, new containers);
+    P5 appended containers chain their filePosition; P4 dropOldData pops only what lies behind the get position; S4 seekg is relative and
+    bounded by the declared end only; E4 the failure state is sticky; K1 all of it under the stream's mutex"""
+    RF.B7(F, rep)
+    RF.R1(F, rep)
+    RF.R2(F, rep, cx.FL)
+    RF.P5(F, rep, cx.FL)
+    RF.P4(F, rep, cx.FL)
+    RF.S4(F, rep)
+    RF.E4(F, rep)
+    RP.K1(F, rep, cx.R)
+    rep.obs = [o for o in rep.obs if o['rule'] != 'K4' and not (o['rule'] == 'K1' and 'UncompressedFile' not in o['key'])]
+    rep.counts.pop('K4', None)
+
+
 def C16(F, rep, tier, cx):
     """Q1 FIFO discipline on the std::queue; Q2 null/eof only on the empty branch; K2/K3 abort atom and notify completeness for the queue"""
     RP.Q(F, rep, cx.R, cx.FL)
@@ -340,6 +358,8 @@ PROPS = {
     'C12': dict(run=C12, level='other'),
     'C13': dict(run=C13, ir_crosscheck=True, level='other'),
     'C14': dict(run=C14, level='other'),
+    'C15': dict(run=C15, level='other', assumptions=['only the structural clauses named in the evidence are decided; the FIFO behaviour over operation '
+                                                       'histories (positions, counts, flags as numbers) is not']),
     'C16': dict(run=C16, level='other', assumptions=ASSUME_THREADS),
     'C17': dict(run=C17, level='proof'),
 }
